@@ -71,11 +71,22 @@ def roundtrip(ctx, tag, res):
             ctx.count("results_written_to_a_reused_file_name")
         else:
             p = os.path.join(d, "result.json")
-        o = call(csep.write_json, res, p)
-        if not o.ok:
-            ctx.unexpected(o, "write_json:" + tag)
-            return
-        o = call(csep.load_evaluation_result, p)
+        bare = REUSE[0] % 5 == 0
+        if bare:
+            # a bare file name, relative to the current working directory (as in the tutorials: write_json(result, 'n_test.json'))
+            cwd = os.getcwd()
+            os.chdir(d)
+            p = "result_in_cwd.json"
+            ctx.count("results_written_to_a_bare_file_name")
+        try:
+            o = call(csep.write_json, res, p)
+            if not o.ok:
+                ctx.unexpected(o, "write_json:" + tag + (":bare_file_name" if bare else ""))
+                return
+            o = call(csep.load_evaluation_result, p)
+        finally:
+            if bare:
+                os.chdir(cwd)
         # (the reused file is left in place: the next result - longer or shorter - overwrites it)
     if not o.ok:
         ctx.unexpected(o, "load_evaluation_result:" + type(res).__name__)
